@@ -123,17 +123,31 @@ theorem streaming_generated (chunks : List (List UInt8)) (hlen : chunks.flatten.
   rw [hu, gen_finalize_eq]
   exact streaming chunks hlen
 
-/-- beyond the standard's range: the byte counter is a `uint64` and the bit length is `count << 3`, so for
-2^61 ≤ length < 2^64 bytes (where FIPS 180-4 defines nothing: its length field holds < 2^64 BITS) the code still
-computes the formula of the standard with the low 64 bits of the bit length in the length field - which is what
-`Spec.sha256` does there too (`Spec.be64` keeps the low 64 bits).  So: for every chunking of every message
-shorter than 2^64 bytes `finalize` = `Spec.sha256`; below 2^61 bytes that is the FIPS digest (`streaming`), from
-2^61 bytes on it is the FIPS computation with a wrapped length field (`length_field_wraps`), and from 2^64 bytes on
-`count` itself wraps (not covered by any theorem; unreachable in practice). -/
-theorem streaming_up_to_2_64 (chunks : List (List UInt8)) (hlen : chunks.flatten.length < 2 ^ 64) :
-    (finalize (chunks.foldl update init)).1 = Spec.sha256 chunks.flatten := by
-  have := digest_chunks_from [] init inv_init chunks (by simpa using hlen)
+/-- beyond the standard's range, for messages of ANY length: the byte counter is a `uint64` and the bit length is `count << 3`.
+For 2^61 ≤ length (where FIPS 180-4 defines nothing: its length field holds < 2^64 BITS) the code still computes the formula of
+the standard with the low 64 bits of the bit length in the length field - which is what `Spec.sha256` does there too
+(`Spec.be64` keeps the low 64 bits, `length_field_wraps`).  From 2^64 bytes on `count` itself wraps (`byte_counter_wraps`); that
+changes nothing: the buffer position `count & 0x3F` is still `length % 64` (64 divides 2^64) and the length field only ever held
+`8·length mod 2^64`.  So for every chunking of every message, without any bound, `finalize` = `Spec.sha256`; below 2^61 bytes
+that is the FIPS digest (`streaming`). -/
+theorem streaming_any_length (chunks : List (List UInt8)) :
+    (finalize (chunks.foldl update init)).1 = Spec.sha256 chunks.flatten ∧
+    (Sha256Body.finalize (chunks.foldl Sha256Body.update init)).1 = Spec.sha256 chunks.flatten := by
+  have := digest_chunks_from [] init inv_init chunks
+  have hu : Sha256Body.update = update := funext fun p => funext fun d => gen_update_eq p d
+  rw [hu, gen_finalize_eq]
   simpa using this.1
+
+/-- what the 64-bit byte counter holds after any sequence of `update` calls: the number of bytes fed modulo 2^64; and the
+buffer position derived from it is the number of bytes modulo 64 whatever the length -/
+theorem byte_counter_wraps (chunks : List (List UInt8)) :
+    (chunks.foldl update init).count.toNat = chunks.flatten.length % 2 ^ 64 ∧
+    bufferPos (chunks.foldl update init) = chunks.flatten.length % 64 := by
+  have hI := foldl_update_inv transformOK chunks [] init inv_init
+  rw [List.nil_append] at hI
+  obtain ⟨_, _, _, _, _, _, _, _, _, hcnt, _⟩ := hI
+  refine ⟨hcnt, ?_⟩
+  rw [bufferPos_eq, hcnt]; omega
 
 /-- the length field of the padding as the spec writes it: only the low 64 bits of the bit length count -/
 theorem length_field_wraps (len : Nat) : Spec.be64 (8 * len) = Spec.be64 ((8 * len) % 2 ^ 64) := by
@@ -147,9 +161,9 @@ theorem length_field_wraps (len : Nat) : Spec.be64 (8 * len) = Spec.be64 ((8 * l
 /-- a hasher copied mid-stream (`Sha256` is copyable: implicit member-wise copy constructor / assignment; the model's
 objects are values): after any common prefix `pre`, the original continued with `a` and the copy continued with `b`
 give the digests of `pre ++ a` and `pre ++ b` - neither continuation disturbs the other (in the model by construction;
-on the real code by the correspondence ops `fork`/`assign`/`swap`) - and both objects are reusable afterwards -/
-theorem copy_midstream (pre a b : List (List UInt8))
-    (ha : pre.flatten.length + a.flatten.length < 2 ^ 61) (hb : pre.flatten.length + b.flatten.length < 2 ^ 61) :
+on the real code by the correspondence ops `fork`/`assign`/`swap`) - and both objects are reusable afterwards; no length bound
+(`Spec.sha256` is the FIPS digest below 2^61 bytes and the FIPS formula with the wrapped length field beyond, `streaming_any_length`) -/
+theorem copy_midstream (pre a b : List (List UInt8)) :
     let p := pre.foldl update init
     let copy := p
     (finalize (a.foldl update p)).1 = Spec.sha256 (pre.flatten ++ a.flatten) ∧
@@ -157,10 +171,10 @@ theorem copy_midstream (pre a b : List (List UInt8))
     Reusable (finalize (a.foldl update p)).2 ∧ Reusable (finalize (b.foldl update copy)).2 := by
   intro p copy
   have hI : Inv pre.flatten p := by
-    have := foldl_update_inv transformOK pre [] init inv_init (by rw [List.length_nil]; omega)
+    have := foldl_update_inv transformOK pre [] init inv_init
     simpa using this
-  have h1 := digest_chunks_from pre.flatten p hI a (by omega)
-  have h2 := digest_chunks_from pre.flatten p hI b (by omega)
+  have h1 := digest_chunks_from pre.flatten p hI a
+  have h2 := digest_chunks_from pre.flatten p hI b
   exact ⟨h1.1, h2.1, h1.2, h2.2⟩
 
 /-- byte ↔ word conversions: `WriteByteBlock` assembles the sixteen words of a block big-endian (FIPS 180-4 §5.2.1:
